@@ -159,6 +159,29 @@ def run(ctx):
             if not (a[0] == loop.get("var") and rl is not None and a[1] == rl.get("var") and expr_str(core(rl.child("range"))) == "roots"):
                 oks = False
     r.check(oks, "execute|flag-set-only-by-prefix-test", "%d site(s)" % len(sets), "isLocatedUnderRootPath is set other than under pathIsPrefixedByPath(file, root) for a configured root", f)
+    # ... and conversely every accepted element is handed to remove(): an iteration that ends without it has established one of the two
+    # rejections the property allows (relative path with roots configured; not beneath any root) — nothing else may skip an element
+    if loop is not None and "inc" in loop:
+        start = cfg.any_pos(f, loop.child("body"))
+        head = cfg.any_pos(f, loop.child("inc"))
+        rp = cfg.pos_of(f, rmc)
+
+        def rejecting(atom, pol):
+            if atom == "isLocatedUnderRootPath":
+                return not pol
+            if "pathSeparators.find" in atom and "npos" in atom:
+                return pol if "==" in atom else not pol
+            return False
+        w = cfg.path_exists_feasible(f, start, lambda p, e: p == head or e == "EXIT", avoid=lambda p, e: p == rp, infeasible=rejecting) if start and head else []
+        why = ""
+        if w:
+            conds = [expr_str(f.blocks[b].effective_cond())[:70] for b in w if f.blocks[b].effective_cond() is not None]
+            why = "an element of filesToDelete that is absolute (or no roots are set) and beneath a root can end its iteration without remove() — skipped through `%s`" % (conds[-1] if conds else "?")
+        r.check(w is None, "execute|every-accepted-path-removed", "", why, f, rmc)
+        leaves = [x for x in loop.child("body").walk() if x.get("k") in ("break", "return", "goto") and
+                  next((a for a in f.ancestors(x) if a.get("k") in ("forrange", "for", "while", "do", "switch")), None) is loop]
+        r.check(not leaves, "execute|every-element-visited", "", "the removal loop can be left before filesToDelete is exhausted: the remaining stale paths stay on disk and "
+                "are forgotten once the new list is stored", f, leaves[0] if leaves else None)
     # absolute-path test when roots are configured
     blks = [b for b in f.blocks.values() if b.cond() is not None and "pathSeparators.find" in expr_str(b.cond()) and b.term["cls"] == "IfStmt"]
     oka = len(blks) == 1
@@ -257,4 +280,10 @@ VARIANTS = [
     dict(name="valid-when-nothing-to-delete", file="lib/BuildSystem/BuildSystem.cpp",
          old="    // Always re-run stale file removal.\n    return false;", new="    // Always re-run stale file removal.\n    return value.isStaleFileRemoval() && value.getStaleFileList().size() == expectedOutputs.size();",
          expect=("R-STALE-PERSIST", "isResultValid|always-false")),
+    dict(name="element-skipped-when-it-extends-the-last-removed-path", file="lib/BuildSystem/BuildSystem.cpp",
+         edits=[("    for (auto fileToDelete : filesToDelete) {\n      // If no root paths are specified, any path is valid.", "    std::string lastRemoved;\n    for (auto fileToDelete : filesToDelete) {\n      // If no root paths are specified, any path is valid."),
+                ("      if (getBuildSystem(ti).getFileSystem().remove(fileToDelete)) {", "      if (!lastRemoved.empty() && StringRef(fileToDelete).startswith(lastRemoved))\n        continue;\n      lastRemoved = fileToDelete;\n      if (getBuildSystem(ti).getFileSystem().remove(fileToDelete)) {")],
+         expect=("R-STALE-GUARD", "every-accepted-path-removed")),
+    dict(name="removal-stops-at-first-failure", file="lib/BuildSystem/BuildSystem.cpp", old="        // Do not warn if the file has already been deleted.\n        if (errno != ENOENT) {",
+         new="        // Do not warn if the file has already been deleted.\n        if (errno == EACCES)\n          break;\n        if (errno != ENOENT) {", expect=("R-STALE-GUARD", "every-element-visited")),
 ]
